@@ -103,7 +103,9 @@ def run(ctx):
         # per source of variation (the drive string of the spec): how often exercised, how often equal
         drv = sp.split(" ")[-1] if sp else ""
         srcs = []
-        if drv.startswith("hist:"):
+        if ":after:" in drv:
+            srcs = ["history:" + o + "->final:" + drv.split(":")[0] for o in sorted(set(drv.split(":after:")[1].split("+"))) if o.startswith("enc")]
+        elif drv.startswith("hist:"):
             srcs = ["history:" + o for o in sorted(set(drv[5:].split("+")))]
         elif drv == "failed":
             srcs = ["history:first-parse-failed(no language)"]
